@@ -32,6 +32,11 @@ pub enum Family {
     FkCreate,
     FkDrop,
     TableFk,
+    TypeCreate,
+    TypeDrop,
+    TypeAlter,
+    ExtCreate,
+    ExtDrop,
 }
 
 pub const ALL_FAMILIES: &[Family] = &[
@@ -56,6 +61,11 @@ pub const ALL_FAMILIES: &[Family] = &[
     Family::FkCreate,
     Family::FkDrop,
     Family::TableFk,
+    Family::TypeCreate,
+    Family::TypeDrop,
+    Family::TypeAlter,
+    Family::ExtCreate,
+    Family::ExtDrop,
 ];
 
 impl Family {
@@ -92,6 +102,8 @@ impl Family {
                 | Family::WithClause
                 | Family::Cte
                 | Family::WithQuery
+                | Family::ExtCreate
+                | Family::ExtDrop
         )
     }
     pub fn is_query(self) -> bool {
@@ -123,6 +135,11 @@ impl Family {
             Family::FkCreate => "fc",
             Family::FkDrop => "fd",
             Family::TableFk => "tfk",
+            Family::TypeCreate => "tyc",
+            Family::TypeDrop => "tyd",
+            Family::TypeAlter => "tya",
+            Family::ExtCreate => "exc",
+            Family::ExtDrop => "exd",
         }
     }
 }
@@ -150,6 +167,11 @@ pub enum Stmt {
     FkCreate(ForeignKeyCreateStatement),
     FkDrop(ForeignKeyDropStatement),
     TableFk(TableForeignKey),
+    TypeCreate(sea_query::extension::postgres::TypeCreateStatement),
+    TypeDrop(sea_query::extension::postgres::TypeDropStatement),
+    TypeAlter(sea_query::extension::postgres::TypeAlterStatement),
+    ExtCreate(sea_query::extension::postgres::ExtensionCreateStatement),
+    ExtDrop(sea_query::extension::postgres::ExtensionDropStatement),
 }
 
 macro_rules! each_stmt {
@@ -176,6 +198,11 @@ macro_rules! each_stmt {
             Stmt::FkCreate($x) => $e,
             Stmt::FkDrop($x) => $e,
             Stmt::TableFk($x) => $e,
+            Stmt::TypeCreate($x) => $e,
+            Stmt::TypeDrop($x) => $e,
+            Stmt::TypeAlter($x) => $e,
+            Stmt::ExtCreate($x) => $e,
+            Stmt::ExtDrop($x) => $e,
         }
     };
 }
@@ -204,6 +231,11 @@ impl Stmt {
             Stmt::FkCreate(_) => Family::FkCreate,
             Stmt::FkDrop(_) => Family::FkDrop,
             Stmt::TableFk(_) => Family::TableFk,
+            Stmt::TypeCreate(_) => Family::TypeCreate,
+            Stmt::TypeDrop(_) => Family::TypeDrop,
+            Stmt::TypeAlter(_) => Family::TypeAlter,
+            Stmt::ExtCreate(_) => Family::ExtCreate,
+            Stmt::ExtDrop(_) => Family::ExtDrop,
         }
     }
 
@@ -238,6 +270,8 @@ impl Stmt {
             (Stmt::WithClause(a), Stmt::WithClause(b)) => a == b,
             (Stmt::Cte(a), Stmt::Cte(b)) => a == b,
             (Stmt::WithQuery(a), Stmt::WithQuery(b)) => a == b,
+            (Stmt::ExtCreate(a), Stmt::ExtCreate(b)) => a == b,
+            (Stmt::ExtDrop(a), Stmt::ExtDrop(b)) => a == b,
             _ => return None,
         })
     }
@@ -272,6 +306,11 @@ impl Stmt {
             Family::FkCreate => Stmt::FkCreate(ForeignKeyCreateStatement::new()),
             Family::FkDrop => Stmt::FkDrop(ForeignKeyDropStatement::new()),
             Family::TableFk => Stmt::TableFk(TableForeignKey::new()),
+            Family::TypeCreate => Stmt::TypeCreate(sea_query::extension::postgres::Type::create()),
+            Family::TypeDrop => Stmt::TypeDrop(sea_query::extension::postgres::Type::drop()),
+            Family::TypeAlter => Stmt::TypeAlter(sea_query::extension::postgres::Type::alter()),
+            Family::ExtCreate => Stmt::ExtCreate(sea_query::extension::postgres::Extension::create()),
+            Family::ExtDrop => Stmt::ExtDrop(sea_query::extension::postgres::Extension::drop()),
         }
     }
 }
